@@ -22,6 +22,9 @@ Definition lift_opt {A} (o : option A) : M A :=
 Definition to_uint64 (i : Z) : Z := i mod 2 ^ 64.
 Definition zero_token : token := {| t_typ := 0; t_pos := zero_position; t_txt := [] |}.
 
+(** the final receiver value read as a definition: Parse appends the pointer it handed to parseFrom *)
+Definition run_as {T} (to_def : T -> def) (m : M T) : M def := bind m (fun d => ret (to_def d)).
+
 (** ------------------------------------------------------------------ Go struct -> Ast *)
 Definition ValueDescriptionDef_to (d : ValueDescriptionDef) : value_description_def :=
   {| vd_pos := ValueDescriptionDef_Pos d; vd_value := ValueDescriptionDef_Value d;
